@@ -441,17 +441,20 @@ func VerifC20ChanAnn() {
 // those fields.
 func VerifC20ChanAnnDigest() {
 	vUnwind(512)
-	mk := func(p string) *c20Ann {
-		a := &c20Ann{feat: vChoice(p+"feat", c20NFeat)}
+	mk := func(p string, feat, nextra int) *c20Ann {
+		a := &c20Ann{feat: feat}
 		copy(a.chain[:], vBytes(p+"chain", 32))
 		a.scid = c20SymScid(p + "scid")
 		for k := 0; k < 4; k++ {
 			copy(a.keys[k][:], vBytes(p+"key", 33))
 		}
-		a.extra = vBytes(p+"extra", vChoice(p+"extra.len", C20_EXTRA+1))
+		a.extra = vBytes(p+"extra", nextra)
 		return a
 	}
-	a, b := mk("a."), mk("b.")
+	// b has the same or the next feature shape / extra length as a
+	fa, ea := vChoice("a.feat", c20NFeat), vChoice("a.extra.len", C20_EXTRA+1)
+	a := mk("a.", fa, ea)
+	b := mk("b.", (fa+vChoice("b.dfeat", 2))%c20NFeat, (ea+vChoice("b.dextra", 2))%(C20_EXTRA+1))
 	da, err := c20AnnWire(a).DataToSign()
 	vAssert(err == nil, "DataToSign(a) fails")
 	db, err := c20AnnWire(b).DataToSign()
@@ -606,8 +609,9 @@ func VerifC20ChanUpdate() {
 // injective in every field that is on the wire.
 func VerifC20ChanUpdDigest() {
 	vUnwind(512)
-	a := c20SymUpd("a.", vChoice("a.extra.len", C20_EXTRA+1))
-	b := c20SymUpd("b.", vChoice("b.extra.len", C20_EXTRA+1))
+	ea := vChoice("a.extra.len", C20_EXTRA+1)
+	a := c20SymUpd("a.", ea)
+	b := c20SymUpd("b.", (ea+vChoice("b.dextra", 2))%(C20_EXTRA+1))
 	da, err := c20UpdWire(a).DataToSign()
 	vAssert(err == nil, "DataToSign(a) fails")
 	db, err := c20UpdWire(b).DataToSign()
@@ -670,8 +674,16 @@ func c20Addrs(n *c20Node) ([]net.Addr, []byte, bool) {
 	return []net.Addr{d}, b, false
 }
 
-func c20SymNode(p string, nextra int) *c20Node {
-	n := &c20Node{feat: vChoice(p+"feat", c20NFeat), ts: vU32(p + "ts"), addrs: vChoice(p+"addrs", c20NAddr), port: vU16(p + "port")}
+// c20SymNode: a node announcement with symbolic field values; with rel != nil
+// its feature and address shapes are the same as or the next after rel's.
+func c20SymNode(p string, rel *c20Node, nextra int) *c20Node {
+	n := &c20Node{ts: vU32(p + "ts"), port: vU16(p + "port")}
+	if rel == nil {
+		n.feat, n.addrs = vChoice(p+"feat", c20NFeat), vChoice(p+"addrs", c20NAddr)
+	} else {
+		n.feat = (rel.feat + vChoice(p+"dfeat", 2)) % c20NFeat
+		n.addrs = (rel.addrs + vChoice(p+"daddrs", 2)) % c20NAddr
+	}
 	copy(n.rgb[:], vBytes(p+"rgb", 3))
 	copy(n.alias[:], vBytes(p+"alias", 32))
 	copy(n.ip[:], vBytes(p+"ip", 4))
@@ -738,13 +750,13 @@ func c20NodeSame(a, b *c20Node) bool {
 // field rules AND the signature is authentic for the announced node id.
 func VerifC20NodeAnn() {
 	c20Ideal()
-	n := c20SymNode("", C20_EXTRA*vChoice("extra.len", 2))
+	n := c20SymNode("", nil, C20_EXTRA*vChoice("extra.len", 2))
 	n.id = c20Key("node")
 	no := len(n.extra)
 	if vChoice("other", 2) == 1 {
 		no++
 	}
-	o := c20SymNode("o.", no)
+	o := c20SymNode("o.", n, no)
 	copy(o.id[:], vBytes("o.id", 33))
 	vAssume(!c20NodeSame(n, o))
 	slot := c20Slot("sig")
@@ -771,8 +783,9 @@ func VerifC20NodeAnn() {
 // injective in features, timestamp, node id, colour, alias, addresses, extra.
 func VerifC20NodeAnnDigest() {
 	vUnwind(512)
-	a := c20SymNode("a.", vChoice("a.extra.len", C20_EXTRA+1))
-	b := c20SymNode("b.", vChoice("b.extra.len", C20_EXTRA+1))
+	ea := vChoice("a.extra.len", C20_EXTRA+1)
+	a := c20SymNode("a.", nil, ea)
+	b := c20SymNode("b.", a, (ea+vChoice("b.dextra", 2))%(C20_EXTRA+1))
 	copy(a.id[:], vBytes("a.id", 33))
 	copy(b.id[:], vBytes("b.id", 33))
 	da, err := c20NodeWire(a).DataToSign()
